@@ -4,15 +4,18 @@
  * usage: c09_remote <level> <nrandom> <seed> <shard> <nshards>   |   c09_remote -   (cases on stdin)
  *
  * output, one line per case:
- *   S <ip> <helo> <sender> <rcpts,> <msg> <msgerr> <stream> <chunk> <wk> <endmode> <wlabel> <out> <wire> <exit> <relay>
+ *   S <ip> <helo> <sender> <rcpts,> <msg> <msgerr> <stream> <chunk> <wk> <endmode> <wlabel> <wtry> <out> <wire> <exit> <relay>
  *       ip = 8 hex digits; rcpts = comma-separated hex; stream = every byte the server sends;
  *       chunk = bytes per read of the socket (0 = as many as fit); wk = number of the socket write that
  *       fails (0 = none); endmode = what a read past the end of the stream returns (0: 0/EOF, 1: -1/timeout;
- *       also used for the failing write); wlabel = which write that was (none|helo|mail|rcpt<i>|data|body|final|quit);
+ *       also used for the failing write); wlabel = which write that was (none|helo|mail|rcpt<i>|data|body|final|quit):
+ *       the command writes are named by their bytes; body/final is the value of the client's own flagcritical at
+ *       that write - an input of the MODEL only (it has no buffering); the ORACLE decides from wtry and wire whether
+ *       the write carried the end of the message; wtry = the bytes of the write that failed ('-' if none);
  *       out = qmail-remote's standard output; wire = bytes the server received; exit = exit status;
  *       relay = report(0, out) of qmail-rspawn.c
  *   R <wstat> <out> <relay>
- *   M <dnsret> <cands> <stream> <wk> <wlabel> <out> <wire> <exit> <trace>
+ *   M <dnsret> <cands> <stream> <wk> <wlabel> <wtry> <out> <wire> <exit> <trace>
  *       the real main() of qmail-remote (argv: host.example s@a.example r0@b.example) with control files, DNS,
  *       ipme, tcpto, socket/connect replaced: dnsret = what dns_mxip returns (-3 -2 -1 0 1);
  *       cands = comma-separated ip(8 hex):pref:isme:tcpto_skip:conn (conn 0 = connects, 1 = refused, 2 = timeout), or '.';
@@ -59,7 +62,7 @@ struct scase {
 
 /* ---- scripted socket (replaces timeoutread.o / timeoutwrite.o) ---- */
 static const unsigned char *sv_p; static size_t sv_n, sv_pos; static int sv_chunk, sv_endmode;
-static hbuf wire; static int wcall, wfailat, data_sent, nrcptcmd; static char wlabel[32];
+static hbuf wire, wtry; static int wcall, wfailat, data_sent, nrcptcmd; static char wlabel[32];
 
 ssize_t timeoutread(int t, int fd, char *buf, size_t len) {
   size_t k = sv_n - sv_pos;
@@ -85,7 +88,7 @@ ssize_t timeoutwrite(int t, int fd, const void *buf, size_t len) {
     else lab = flagcritical ? "final" : "body";
   }
   if (wcall == wfailat) {
-    strcpy(wlabel, lab);
+    strcpy(wlabel, lab); hbuf_reset(&wtry); hbuf_add(&wtry, buf, len);
     if (sv_endmode) { errno = ETIMEDOUT; return -1; }
     errno = EPIPE; return -1;
   }
@@ -142,7 +145,7 @@ static void run_s(struct scase *c) {
   }
   sv_p = c->stream.p; sv_n = c->stream.n; sv_pos = 0; sv_chunk = c->chunk; sv_endmode = c->endmode;
   in_p = c->msg.p; in_n = c->msg.n; in_pos = 0; in_err = c->msgerr;
-  hbuf_reset(&wire); hbuf_reset(&repb);
+  hbuf_reset(&wire); hbuf_reset(&repb); hbuf_reset(&wtry);
   wcall = 0; wfailat = c->wk; data_sent = 0; nrcptcmd = 0; strcpy(wlabel, "none");
   int ex = -1;
   h_exit_armed = 1;
@@ -156,6 +159,7 @@ static void run_s(struct scase *c) {
   for (int i = 0; i < c->n; i++) { if (i) fputc(',', h_out); put_hex(&c->rcpt[i]); }
   fputc(' ', h_out); put_hex(&c->msg); fprintf(h_out, " %d ", c->msgerr); put_hex(&c->stream);
   fprintf(h_out, " %d %d %d %s ", c->chunk, c->wk, c->endmode, wlabel);
+  put_hex(&wtry); fputc(' ', h_out);
   put_hex(&repb); fputc(' ', h_out); put_hex(&wire); fprintf(h_out, " %d ", ex); put_hex(&relayb); fputc('\n', h_out);
 }
 
@@ -210,7 +214,7 @@ static void run_m(const hbuf *stream, int wk) {
   flagcritical = 0; smtptext.len = 0; reciplist.len = 0; port = PORT_SMTP;
   sv_p = stream->p; sv_n = stream->n; sv_pos = 0; sv_chunk = 0; sv_endmode = 0;
   in_p = (const unsigned char *)msg; in_n = sizeof msg - 1; in_pos = 0; in_err = 0;
-  hbuf_reset(&wire); hbuf_reset(&repb); hbuf_reset(&trace);
+  hbuf_reset(&wire); hbuf_reset(&repb); hbuf_reset(&trace); hbuf_reset(&wtry);
   wcall = 0; wfailat = wk; data_sent = 0; nrcptcmd = 0; strcpy(wlabel, "none");
   int ex = -1;
   h_exit_armed = 1;
@@ -223,6 +227,7 @@ static void run_m(const hbuf *stream, int wk) {
     fprintf(h_out, "%s%02x%02x%02x%02x:%d:%d:%d:%d", i ? "," : "", cands[i].ip[0], cands[i].ip[1], cands[i].ip[2], cands[i].ip[3],
             cands[i].pref, cands[i].isme, cands[i].skip, cands[i].conn);
   fputc(' ', h_out); put_hex(stream); fprintf(h_out, " %d %s ", wk, wlabel);
+  put_hex(&wtry); fputc(' ', h_out);
   put_hex(&repb); fputc(' ', h_out); put_hex(&wire); fprintf(h_out, " %d ", ex);
   if (trace.n) fwrite(trace.p, 1, trace.n, h_out); else fputc('.', h_out);
   fputc('\n', h_out);
@@ -299,6 +304,24 @@ static void enum_wfail(int n, int p, size_t slen) {
       for (int wk = 1; wk <= n + 8; wk++) { C.wk = wk; C.endmode = wk & 1; run_s(&C); }
   }
   C.stream.n = slen; C.wk = 0; C.endmode = 0;
+}
+
+/* message sizes around the 1024-byte smtpto buffer: at k = 1022..1024 the put of the terminating ".\r\n" finds the buffer
+ * (nearly) full and first flushes body bytes with flagcritical already 1 (a write that is flagged but does not carry the end of
+ * the message); below that the terminator shares the last write with body bytes; above, a buffer-full flush precedes it.
+ * Each write from DATA to QUIT failing in turn, final reply 2xx/4xx/5xx. */
+static void enum_boundary(void) {
+  static const char *fin[3] = { "250 ok\r\n", "451 later\r\n", "554 no\r\n" };
+  for (int k = 1015; k <= 1026; k++)
+    for (int j = 0; j < 3; j++)
+      for (int wk = 4; wk <= 8; wk++)
+        for (int em = 0; em < 2; em++) {
+          if (!mine()) continue;
+          base_case(1);
+          hbuf_reset(&C.msg); for (int i = 0; i < k; i++) hcat(&C.msg, "a"); hcat(&C.msg, "\n");
+          hset(&C.stream, "220 a\r\n250 b\r\n250 c\r\n250 d\r\n354 e\r\n"); hcat(&C.stream, fin[j]);
+          C.wk = wk; C.endmode = em; run_s(&C);
+        }
 }
 
 /* every byte string over `alpha` up to length maxlen as the reply at a given position of a good conversation */
@@ -485,6 +508,7 @@ int main(int argc, char **argv) {
     hbuf_reset(&C.msg); for (int i = 0; i < 150; i++) hcat(&C.msg, ".line of text\n");
     enum_wfail(n, 0, 0);
   }
+  enum_boundary();
   /* message that cannot be sent: partial last line, read error */
   for (int v = 0; v < 4; v++) {
     base_case(2); hset(&C.msg, (v & 1) ? "no newline" : "x\r"); C.msgerr = v >> 1;
